@@ -12,8 +12,12 @@ ASSUMPTIONS = ["validity predicate of C01: cp1252-encodable strings, no y-diaere
                "elements of unbounded delimited arrays begin with a non-empty first chunk (otherwise indistinguishable from end of data)"]
 
 
+MINI = [("TailMixedWidths",), ("TailFlagPairs",), ("TailPaddedPairs",), ("MixedWidths",), ("CountedItems",), ("ChunkedParent",), ("OptionalBound",)]
+
+
 def trees(tier):
-    return [("core", corpus.CORE), ("pairs", corpus.pairs(tier, corpus.seed())[0])]
+    return ([("core", corpus.CORE), ("pairs", corpus.pairs(tier, corpus.seed())[0])]
+            + [("mini:" + "+".join(m), corpus.mini(m)[0]) for m in MINI])
 
 
 def programs(tier):
@@ -39,6 +43,22 @@ def jobs(tier):
         js.append(dict(name=f"roundtrip[{c['name']},lens={cfg['lens'][-1]},counts={cfg['counts'][-1]}]", fn="roundtrip",
                        args=[corpus.closure(types, c["instrs"]), c, cfg], tree="core", collect_models=2,
                        expect=["deserializer consumes exactly the bytes written"]))
+    # element counts inferred from the remaining bytes (unbounded arrays of fixed-size structs): a wrong element size only
+    # shows from three elements on (n*real // assumed == n for small n)
+    def has_tail_struct_array(instrs):
+        return any((i[0] == "array" and i[3] is None and i[2][0] == "struct") or (i[0] == "chunked" and has_tail_struct_array(i[1])) for i in instrs)
+    for c in cls:
+        if has_tail_struct_array(c["instrs"]):
+            cfg = {"lens": [0, 1], "counts": [3, 4, 5] if tier == "quick" else [3, 4, 5, 6, 7, 8]}
+            js.append(dict(name=f"roundtrip[{c['name']},counts=3..{cfg['counts'][-1]}]", fn="roundtrip", args=[corpus.closure(types, c["instrs"]), c, cfg],
+                           tree="core", collect_models=1, expect=["deserializer consumes exactly the bytes written"]))
+    # the same classes generated in isolation (a tree of their own): order effects inside the generator
+    for m in MINI:
+        _, mtypes, mcls = corpus.mini(m)
+        for c in mcls:
+            cfg = {"lens": [0, 1], "counts": [0, 1, 2, 3, 4]}
+            js.append(dict(name=f"roundtrip[mini:{c['name']}]", fn="roundtrip", args=[corpus.closure(mtypes, c["instrs"]), c, cfg],
+                           tree="mini:" + "+".join(m), collect_models=1, expect=["deserializer consumes exactly the bytes written"]))
     # size thresholds: the largest string / array a one-byte length field can announce (252), all characters symbolic
     for c in cls:
         if c["name"] in ("Named", "LengthBytes", "OptionalBound") or (tier != "quick" and c["name"] in ("CountedItems", "ArrayZoo")):
